@@ -290,3 +290,20 @@ def build_force_key_shim(dirname):
         except (OSError, subprocess.SubprocessError):
             continue
     return None
+
+
+def make_overlong_folder(top, levels=24, width=200):
+    """a folder chain below `top` whose full path is longer than PATH_MAX (made with relative mkdir/chdir); a file at the bottom.
+    Returns True if the host let us build it."""
+    cwd = os.getcwd()
+    try:
+        os.makedirs(top, exist_ok=True); os.chdir(top)
+        for i in range(levels):
+            n = ('d%02d' % i) + 'x' * (width - 3)
+            os.mkdir(n); os.chdir(n)
+        open('bottom', 'w').write('b')
+        return True
+    except OSError:
+        return False
+    finally:
+        os.chdir(cwd)
